@@ -227,11 +227,14 @@ func c07CoqLogs(c c07Case, o c07Obs) string {
 // clause 6 of the oracle (request level): before the first request that creates, changes or
 // deletes anything, install and upgrade have looked up (GET) every resource they would newly
 // create - otherwise they cannot have refused "before creating, changing or deleting any
-// resource".  Every install / upgrade of the history that sent a mutating request.
+// resource".  Every install / upgrade without take-ownership of the history that sent a mutating request.
 func c07PreflightOracle(c c07Case, o c07Obs, add func(sig, what string)) {
 	for i, s := range c.H.Steps {
 		if s.Op == nil || i >= len(o.Log) || i >= len(o.Obs.Steps) || (s.Op.Kind != "install" && s.Op.Kind != "upgrade") {
 			continue
+		}
+		if s.Op.Flags.TakeOwnership {
+			continue // no refusal is owed, so the text does not order the look-up before the writes
 		}
 		first := -1
 		for j, q := range o.Log[i] {
